@@ -204,7 +204,7 @@ type world struct {
 	quiet     map[int]bool // do not call IsAllowed for this address before its next handshake
 	specPerm  map[int]bool // a permanent ban was put on / seen on this address: only UnbanIP or a restart lifts it
 	permSeen  map[int]bool
-	fam       map[int]int // address family per address: 0 IPv4, 1 global IPv6, 2 link-local IPv6
+	fam       map[int]int // address family per address: 0 IPv4, 1 global IPv6, 2 link-local IPv6, 3/4/5 global IPv6 sharing 32/48/64 bits with family 1
 	// a ban once seen in force (manual 1 h, or by failures 30 min / permanent) must stay until UnbanIP or a restart
 	specBan  map[int]bool
 	lostSeen map[int]bool
@@ -403,6 +403,12 @@ func (w *world) ip(a int) string {
 		s = net.ParseIP(fmt.Sprintf("2001:db8::%x:%x", (n>>16)&0xffff, n&0xffff)).String()
 	case 2:
 		s = net.ParseIP(fmt.Sprintf("fe80::%x:%x", (n>>16)&0xffff, n&0xffff)).String()
+	case 3: // global IPv6 sharing exactly the first 32 bits with the family-1 addresses
+		s = net.ParseIP(fmt.Sprintf("2001:db8:7:0:0:0:%x:%x", (n>>16)&0xffff, n&0xffff)).String()
+	case 4: // ... the first 48 bits
+		s = net.ParseIP(fmt.Sprintf("2001:db8:0:7:0:0:%x:%x", (n>>16)&0xffff, n&0xffff)).String()
+	case 5: // ... the first 64 bits
+		s = net.ParseIP(fmt.Sprintf("2001:db8:0:0:7:0:%x:%x", (n>>16)&0xffff, n&0xffff)).String()
 	}
 	w.addrs[a] = s
 	return s
